@@ -123,6 +123,8 @@ def check_case(ctx, case_seed):
     n = rnd.randint(0, min(1, len(ipos)))
     cand = [p[0] for p in p2 if p[1] in (PK, KO) and p[0] not in ipos[:n]]
     names = tuple(rnd.sample(cand, rnd.randint(0, min(1, len(cand)))))
+    if op == 'partial' and sigs.has_kind(p2, VK) and rnd.random() < 0.6:
+        names = names + ('zq',)     # a keyword only the (possibly annotated) **kwargs takes
     pk1 = [p[0] for p in p1 if p[1] == PK]
     deco = None
     if pk1:
